@@ -97,6 +97,11 @@ func (p Password) Match(pw string) (bool, error) {
 }
 
 func (p *Password) UnmarshalJSON(b []byte) error {
+	if string(b) == "null" {
+		// no password, not the empty password
+		*p = Password{}
+		return nil
+	}
 	var k string
 	err := json.Unmarshal(b, &k)
 	if err == nil {
